@@ -39,10 +39,10 @@ func genRegularCase(rng *rand.Rand, cfg string, idx, size int) *tcase {
 	if rng.Intn(10) == 0 {
 		g.TagLen = 500 + rng.Intn(3000)
 	}
-	// The high-compression lz4 levels (3-9) of pierrec/lz4 need 0.4-3 s of CPU per 500 KB of equal timer samples
+	// The high-compression lz4 levels (1-9; only level 0 is the fast compressor) of pierrec/lz4 need 0.4-3 s of CPU per 500 KB of equal timer samples
 	// (worst for all-zero values; measured without the race detector, roughly ten times that with it), so those
 	// configurations only get the small size class with short timers: still > 100x, but affordable.
-	slowLz4 := strings.HasPrefix(cfg, "lz4-") && cfg > "lz4-2"
+	slowLz4 := strings.HasPrefix(cfg, "lz4-") && cfg != "lz4-0"
 	if slowLz4 {
 		size = 0
 	}
